@@ -19,6 +19,7 @@ EXPLANATION = (
     "temporary consumes it (rename back / remove) on every path to a return or an explicit raise; (d) Job.clear never "
     "deletes the state point file."
     ' A listing filter written as a length-and-alphabet test is decided by the alphabet it accepts (lower-case hex only).'
+    ' (h) The job listing does not single out symbolic links (membership follows them); (i) move() creates the destination workspace directory before the rename.'
 )
 UNDECIDED = ("Equality of the workspace with a model after arbitrary operation histories, check() after every step, several "
              "handles and pickling are behavioural and not decided.")
